@@ -43,12 +43,22 @@ func vf07NewStats(tb testing.TB, prop string) *vfStats {
 	return s
 }
 
+// vf07NT records a non-trivial case key, bounded so that long native-fuzz runs keep their stats files small.
+func vf07NT(st *vfStats, key string) {
+	st.mu.Lock()
+	full := len(st.nontrivial) >= 30000
+	st.mu.Unlock()
+	if !full {
+		st.NonTrivial(key)
+	}
+}
+
 var vf07QuietOnce sync.Once
 
 // ImportTLSClientHello logs warnings through the std logger for every data-less extension; silence it.
 func vf07Quiet() { vf07QuietOnce.Do(func() { log.SetOutput(io.Discard) }) }
 
-var vf07NumRe = regexp.MustCompile(`[0-9a-fx]*[0-9][0-9a-fx]*`)
+var vf07NumRe = regexp.MustCompile(`\b(0x)?[0-9][0-9a-fA-F]*\b|\b[0-9a-f]{4}\b`)
 
 // vf07ErrClass strips numbers/quoted payloads so that error strings fall into a small number of classes.
 func vf07ErrClass(err error) string {
@@ -170,7 +180,7 @@ func vf07CheckRaw(st *vfStats, t vfFataler, rec []byte, flags uint8, origin stri
 		if h != nil {
 			types = fmt.Sprint(h.ExtTypes())
 		}
-		st.NonTrivial("raw|" + vf07ErrClass(err) + "|" + types + "|" + fmt.Sprint(flags&7))
+		vf07NT(st, "raw|" + vf07ErrClass(err) + "|" + types + "|" + fmt.Sprint(flags&7))
 	}
 	if err != nil {
 		st.Class("raw-err: " + vf07ErrClass(err))
@@ -183,7 +193,7 @@ func vf07CheckRaw(st *vfStats, t vfFataler, rec []byte, flags uint8, origin stri
 			r.Where, flags, r.Panic.Val, vf07PanicLine(r.Panic), origin, rec)
 	case r.Panic != nil:
 		// outside the statement (input is not a valid hello): recorded, not judged
-		st.Class("info: apply/build panic on spec from INVALID hello: " + vf07PanicLine(r.Panic))
+		st.Class("info: apply/build panic on spec from INVALID hello: " + vf07ErrClass(fmt.Errorf("%v", r.Panic.Val)))
 	case r.ApplyErr != nil:
 		st.Class("apply-err: " + vf07ErrClass(r.ApplyErr))
 	case r.BuildErr != nil:
@@ -261,7 +271,7 @@ func vf07CheckSpecJSON(st *vfStats, t vfFataler, doc []byte, pristine bool, orig
 		c := vf07ErrClass(err)
 		st.Class("json-err: " + c)
 		if !strings.HasPrefix(err.Error(), "invalid character") && !strings.HasPrefix(err.Error(), "unexpected end") {
-			st.NonTrivial("json|" + c)
+			vf07NT(st, "json|" + c)
 		}
 		return
 	}
@@ -269,14 +279,14 @@ func vf07CheckSpecJSON(st *vfStats, t vfFataler, doc []byte, pristine bool, orig
 	for _, e := range spec.Extensions {
 		names = append(names, fmt.Sprintf("%T", e))
 	}
-	st.NonTrivial("json|ok|" + strings.Join(names, ","))
+	vf07NT(st, "json|ok|" + strings.Join(names, ","))
 	st.Class("json-ok")
 	r := vf07Apply(&spec, true, false)
 	switch {
 	case r.Panic != nil && pristine:
 		st.Violation(t, "%s panicked on the spec imported from an unmodified JSON fixture: %v at %s; doc(%s)", r.Where, r.Panic.Val, vf07PanicLine(r.Panic), origin)
 	case r.Panic != nil:
-		st.Class("info: apply/build panic on spec from generated JSON: " + vf07PanicLine(r.Panic))
+		st.Class("info: apply/build panic on spec from generated JSON: " + vf07ErrClass(fmt.Errorf("%v", r.Panic.Val)))
 	case r.ApplyErr != nil || r.BuildErr != nil:
 		st.Class("json-ok-apply/build-err")
 	default:
@@ -373,19 +383,19 @@ func vf07CheckImportMap(st *vfStats, t vfFataler, m map[string][]byte, validMap 
 		c := vf07ErrClass(err)
 		st.Class("map-err: " + c)
 		if c != "cipher_suites is required" && c != "compression_methods is required" && c != "extensions is required" {
-			st.NonTrivial("map|" + c + "|" + fmt.Sprintf("%x", m["extensions"]))
+			vf07NT(st, "map|" + c + "|" + fmt.Sprintf("%x", m["extensions"]))
 		}
 		return
 	}
 	st.Class("map-ok")
-	st.NonTrivial("map|ok|" + fmt.Sprintf("%x", m["extensions"]))
+	vf07NT(st, "map|ok|" + fmt.Sprintf("%x", m["extensions"]))
 	r := vf07Apply(&spec, true, false)
 	switch {
 	case r.Panic != nil && validMap:
 		st.Violation(t, "%s panicked on the spec imported from a map rendered from a VALID hello: %v at %s; map(%s): %s",
 			r.Where, r.Panic.Val, vf07PanicLine(r.Panic), origin, vf07MapString(m))
 	case r.Panic != nil:
-		st.Class("info: apply/build panic on spec from mutated map: " + vf07PanicLine(r.Panic))
+		st.Class("info: apply/build panic on spec from mutated map: " + vf07ErrClass(fmt.Errorf("%v", r.Panic.Val)))
 	case r.ApplyErr != nil || r.BuildErr != nil:
 		st.Class("map-ok-apply/build-err")
 	default:
@@ -415,7 +425,7 @@ func vf07CheckImportJSON(st *vfStats, t vfFataler, doc []byte, origin string) {
 	}
 	st.Class("importjson: " + vf07ErrClass(err))
 	if jerr == nil {
-		st.NonTrivial("ijson|" + vf07ErrClass(err) + "|" + fmt.Sprintf("%x", m["extensions"]))
+		vf07NT(st, "ijson|" + vf07ErrClass(err) + "|" + fmt.Sprintf("%x", m["extensions"]))
 	}
 }
 
@@ -456,7 +466,7 @@ func vf07CheckExtWrite(st *vfStats, t vfFataler, id uint16, body []byte, origin 
 		if n < 0 || n > len(body) {
 			st.Violation(t, "%s.Write returned n=%d for %d input bytes", name, n, len(body))
 		}
-		st.NonTrivial(fmt.Sprintf("ext|%d|%s|%s", id, vf07ErrClass(err), vfHashHex(body)))
+		vf07NT(st, fmt.Sprintf("ext|%d|%s|%s", id, vf07ErrClass(err), vfHashHex(body)))
 		if err != nil {
 			st.Class("extwrite-err")
 			continue
